@@ -79,7 +79,11 @@ def confirm(name):
             res["error"] = "patch does not apply to the current tree: " + out[-300:]
             return res
         rc1, out1 = run_demo(d, wt)
-        res["demo_with_change"] = {"exit": rc1, "tail": out1[-600:]}
+        tries = 1
+        while not demo_failed(rc1, out1) and tries < 4:   # timing-dependent demonstrations: up to 4 attempts
+            rc1, out1 = run_demo(d, wt)
+            tries += 1
+        res["demo_with_change"] = {"exit": rc1, "tail": out1[-600:], "attempts": tries}
         rc, out = sh(f"cmake -G Ninja -S {wt} -B {wt}/_b >/dev/null 2>&1 && cmake --build {wt}/_b 2>&1 | tail -5", timeout=5400)
         res["suite_builds"] = (rc == 0)
         if rc != 0:
